@@ -30,6 +30,31 @@ def canPollsSt : RxSt → List CanItem → List (Out × Nat × RxSt)
   | st, .wouldBlock :: s => if s = [] then [(.nothing, 0, st)] else (.nothing, s.length, st) :: canPollsSt st s
   | st, .overrun :: s => if s = [] then [(.nothing, 0, st)] else (.nothing, s.length, st) :: canPollsSt st s
 
+/-- `serialEnd` on traces with states: on a serial port an exhausted script inside a link frame is a `read_exact`
+time-out — the call returns a read error, the partial frame is dropped (the builder is kept), the next call finds
+nothing -/
+def serialEndSt : List (Out × Nat × LinkSt) → List (Out × Nat × LinkSt)
+  | [] => []
+  | [(.blocked, n, st)] => [(.emit .readErr, n, ⟨.idle, st.rx⟩), (.nothing, n, ⟨.idle, st.rx⟩)]
+  | x :: t => x :: serialEndSt t
+
+/-- the poll trace of the serial-port receiver -/
+def serialPollsSt (st : LinkSt) (s : List ByteItem) : List (Out × Nat × LinkSt) :=
+  serialEndSt (bytePollsSt serialStep st s)
+
+theorem serialEndSt_outs (l : List (Out × Nat × LinkSt)) : (serialEndSt l).map (·.1) = serialEnd (l.map (·.1)) := by
+  induction l with
+  | nil => rfl
+  | cons x t ih =>
+    obtain ⟨o, n, st⟩ := x
+    cases t with
+    | nil => cases o <;> simp [serialEndSt, serialEnd]
+    | cons y t' =>
+      have : serialEndSt ((o, n, st) :: y :: t') = (o, n, st) :: serialEndSt (y :: t') := by
+        cases o <;> simp [serialEndSt]
+      rw [this, List.map_cons, ih]
+      cases o <;> simp [serialEnd]
+
 theorem bytePollsSt_outs (step : LinkSt → ByteItem → LinkSt × Option Out) (st : LinkSt) (s : List ByteItem) :
     (bytePollsSt step st s).map (·.1) = bytePolls step st s := by
   induction s generalizing st with
@@ -57,5 +82,8 @@ theorem canPollsSt_outs (st : RxSt) (s : List CanItem) : (canPollsSt st s).map (
       | mk st' o => cases o <;> simp [ih st']
     | wouldBlock => simp only [canPollsSt, canPolls]; split <;> simp [ih st]
     | overrun => simp only [canPollsSt, canPolls]; split <;> simp [ih st]
+
+theorem serialPollsSt_outs (st : LinkSt) (s : List ByteItem) : (serialPollsSt st s).map (·.1) = serialPolls st s := by
+  rw [serialPollsSt, serialEndSt_outs, bytePollsSt_outs]; rfl
 
 end Ross
